@@ -124,6 +124,11 @@ def _totality(V, group):
     name = V.pick('T', GROUPS[group])
     T = TYPES[name]
     x = value(V, sym_int=group in ('scalar', 'constrained', 'generic', 'plain-container', 'dataclass'))
+    if group == 'dataclass' and V.bool('reserved_key'):
+        # an input key that spells a parameter of the generated __init__(_obj_self, _d=None, **kwargs)
+        k = V.pick('reserved', ['_obj_self', '_d', 'self'])
+        r = call_checked(V, name + ':reserved-init-parameter-name', T.__from__, {k: V.pick('reserved_value', [1, {'x': 1}])})
+        return
     if group == 'dataclass':
         if isinstance(x, dict) and all(isinstance(k, str) for k in x) and V.bool('as_kwargs'):
             # (Python itself refuses non-string keywords before utype is involved)
